@@ -40,6 +40,21 @@ theorem source_codes_roundtrip :
 theorem guards_are_noops :
     Gen.C02.guards.all (fun g => g.2.1 == "Read" && g.2.2.all (· == "CheckCount")) = true := by decide
 
+/-- **the codec keeps no state between calls.**  `value_roundtrip` is a statement about one call;
+    that it describes *every* call of a process — whatever was decoded or encoded before, failed
+    or not, on whichever goroutine — needs the code to have no package-level mutable state.
+    Regenerated fact: no function of lang/value, io, util/hmap, util/hash writes (assigns,
+    increments, appends to, takes the address of) a package-level variable … -/
+theorem no_package_state_written : Gen.C02.stateRefs.all (fun r => r.2.2.1 == "r") = true := by decide
+
+/-- … and in lang/value and io the only package-level variable is the shared `NULL_VALUE`, read by
+    its constructor only: no intern table, scratch buffer or counter exists that a `Read` / `Write`
+    could consult (the harness's decode-history, failed-decode and concurrent stages look for the
+    behaviour; this looks for the mechanism) -/
+theorem codec_has_no_hidden_state :
+    Gen.C02.pkgVars.filter (fun p => p.1 == "lang/value" || p.1 == "io") = codecPkgVars ∧
+    Gen.C02.stateRefs.filter (fun r => r.1 == "lang/value" || r.1 == "io") = codecStateRefs := by decide
+
 theorem source_codes_distinct : (Gen.C02.consts.map (·.2)).Nodup := by decide
 
 end C02Gen
